@@ -1,1 +1,3 @@
 //! Generators (all decode from a choice stream, `engine::Src`).
+pub mod types;
+pub mod values;
